@@ -334,6 +334,7 @@ def illumina_menu():
     menu = [(201, 300), (201, 304), (197, 300), (205, 300), (201, 296),      # +-4 around the first intron
             (401, 500), (401, 504), (397, 500),
             (180, 240), (270, 300), (201, 240), (260, 300),                   # pairs that look like a skipped exon inside intron 1
+            (232, 255), (262, 268),                                           # pair members whose OUTER site lies > 25 bp inside the read's intron
             (90, 130), (160, 300),                                            # left intron starting before the read
             (401, 450), (480, 520), (470, 610)]                               # right side reaching beyond the read
     return reads, menu
@@ -374,6 +375,14 @@ def illumina_chunk(args):
                 l, r = got[i][1] + 1, got[i + 1][0] - 1
                 if l not in own_l and l not in sl or r not in own_r and r not in sr:
                     bad.append(("foreign-splice-site", ex, sorted(short), "corrected intron %d-%d in %s" % (l, r, got)))
+            # tolerances of the corrector: the junction(s) that replace a read intron keep its outer sites within 25 bp (SIDE_DIFF;
+            # the single-junction rule moves one site by exactly 4)
+            cintr = [(got[i][1] + 1, got[i + 1][0] - 1) for i in range(len(got) - 1)]
+            for i in range(len(ex) - 1):
+                a, b = ex[i][1] + 1, ex[i + 1][0] - 1
+                over = [ci for ci in cintr if ci[0] <= b and a <= ci[1]]
+                if over and (abs(over[0][0] - a) > 25 or abs(over[-1][1] - b) > 25):
+                    bad.append(("site-beyond-tolerance", ex, sorted(short), "read intron %d-%d replaced by %s: an outer site moved by more than 25 bp" % (a, b, over)))
     return n, changed, bad[:20]
 
 
